@@ -60,6 +60,43 @@ pub mod parser;
 #[cfg(feature = "async")]
 pub mod async_io;
 
+/// Scheduling points for external verification harnesses.
+///
+/// Only compiled with `--cfg fastcgi_server_verif`. A harness installs a
+/// thread-local callback which is invoked at named points inside the library,
+/// allowing it to force specific interleavings deterministically. Without a
+/// callback, `point` is a no-op.
+#[cfg(fastcgi_server_verif)]
+pub mod verif_hooks {
+    use std::cell::RefCell;
+
+    type Hook = Box<dyn FnMut(&'static str)>;
+
+    thread_local! {
+        static HOOK: RefCell<Option<Hook>> = const { RefCell::new(None) };
+    }
+
+    /// Installs (or removes) the callback for the current thread.
+    pub fn set(hook: Option<Hook>) {
+        HOOK.with(|h| *h.borrow_mut() = hook);
+    }
+
+    /// Invokes the current thread's callback, if any, with the point's name.
+    pub fn point(name: &'static str) {
+        // Take the callback out while it runs so that it may reach further points
+        let hook = HOOK.with(|h| h.borrow_mut().take());
+        if let Some(mut hook) = hook {
+            hook(name);
+            HOOK.with(|h| {
+                let mut h = h.borrow_mut();
+                if h.is_none() {
+                    *h = Some(hook);
+                }
+            });
+        }
+    }
+}
+
 
 /// The central configuration for [`fastcgi_server`](crate).
 #[derive(Debug, Clone, PartialEq, Eq)]
